@@ -4,8 +4,8 @@ From Coq Require Import List Arith.
 From DuneV Require Import C11_Model C11_Spec.
 Extraction Language OCaml.
 Extraction "c11_model.ml"
-  c11_al_run c11_al_run_deep c11_alo_run c11_als_run c11_al_empty c11_alo_empty
-  c11_sl_run c11_sl_run_deep c11_sls_run c11_sl_empty c11_sl_last_addr
+  c11_al_run c11_al_run_ra c11_al_run_deep c11_alo_run c11_als_run c11_al_empty c11_alo_empty
+  c11_sl_run c11_sl_run2 c11_sl_run_deep c11_sls_run c11_sls_run2 c11_sl_empty c11_sl_last_addr
   c11_lru_run c11_lrus_run c11_lru_empty
-  c11_rv_run c11_rvs_run c11_rv_empty
+  c11_rv_run c11_rv_run2 c11_rvs_run c11_rvs_run2 c11_rv_empty
   c11_bv_run c11_bvs_run.
